@@ -63,7 +63,9 @@ TRequest == /\ IsEvent("Request") /\ Ev.r \in Req /\ Ev.node \in Node /\ Ev.s \i
             /\ ToSet(Ev.keys) \subseteq Block
             /\ Request(Ev.r, Ev.node, Ev.s, Ev.kind, Ev.keys)
             /\ kF' = [kF EXCEPT ![Ev.r] = IF Ev.s = 0 THEN {} ELSE
-                        ToSet(Ev.keys) \cap UNION {KeySet(c) \ Got(c) : c \in {c \in rc : rq[c].s = Ev.s}}]
+                        ToSet(Ev.keys) \cap (UNION {KeySet(c) \ Got(c) : c \in {c \in rc : rq[c].s = Ev.s}} \cup
+                                              \* ... or that the session received shortly before (its opReceive may still be queued)
+                                              UNION {Got(c) : c \in {c \in Req : rq[c].st # "none" /\ rq[c].s = Ev.s}})]
             /\ hasAt' = [hasAt EXCEPT ![Ev.r] = has]
             /\ ToSet(Ev.near) \subseteq Req
             /\ kG' = [kG EXCEPT ![Ev.r] = ToSet(Ev.keys) \cap UNION {KeySet(c) : c \in
@@ -103,8 +105,9 @@ TTimeout == IsEvent("Timeout") /\ Ev.r \in Req /\ Timeout(Ev.r) /\ UNCHANGED <<d
         from sessionWants / sessionWantSender and withdraws the session's interest although a sibling call on
         the same session still awaits the same key -> the sibling never gets the block (liveness).
    Dev_C37_RewantAfterCancel     same bookkeeping, asynchronous half: the interest is withdrawn later, by the
-        sessionWantSender goroutine; a call issued on the session right after the sibling's cancellation has
-        its fresh interest removed -> blocks for it are discarded as unwanted (liveness), and the wants the
+        sessionWantSender goroutine (cancel) or by a still queued opReceive (receipt); a call issued on the session
+        right after the sibling's cancellation / right after the session received the key (too late for the
+        publication) has its fresh interest removed -> blocks for it are discarded as unwanted (liveness), and the wants the
         sender still emits are never cancelled (leak).
    Dev_C37_CrossSessionCancelWipe  SessionManager.cancelWants is not atomic with the interest manager: a request that
         ends (cancelled, completed, or served with a key) has "nobody else wants k" computed first and CANCEL sent /
